@@ -33,7 +33,7 @@ def r03_1_2(ctx, run, rule1='R03.1', rule2='R03.2'):
     f = ctx.facts
     b = f.one('functions::escape_scalar_string')
     if b is None:
-        run.violation(rule1, 'functions::escape_scalar_string', 'body', 'function not found (anchor lost)')
+        run.undecided(rule1, 'functions::escape_scalar_string', 'body', 'function not found (anchor lost)')
         return
     loops = natural_loops(b)
     ex = Explorer(b, max_paths=4000)
@@ -126,7 +126,7 @@ def r03_3(ctx, run, rule='R03.3'):
     f = ctx.facts
     b = f.one('functions::container_to_string')
     if b is None:
-        run.violation(rule, 'functions::container_to_string', 'body', 'function not found (anchor lost)')
+        run.undecided(rule, 'functions::container_to_string', 'body', 'function not found (anchor lost)')
         return
     loops = natural_loops(b)
     ex = Explorer(b, max_paths=6000)
@@ -190,7 +190,7 @@ def r03_3(ctx, run, rule='R03.3'):
     gi = f.one('functions::PrettyOpts::generate_indent')
     ii = f.one('functions::PrettyOpts::inc_indent')
     if gi is None or ii is None:
-        run.violation('R03.6', 'functions::PrettyOpts', 'indent', 'helpers not found (anchor lost)')
+        run.undecided('R03.6', 'functions::PrettyOpts', 'indent', 'helpers not found (anchor lost)')
         return
     ps, _ = explore(gi)
     ok = False
@@ -215,7 +215,7 @@ def r03_4(ctx, run, rule='R03.4'):
     f = ctx.facts
     b = f.bodies.get('<number::Number as std::fmt::Display>::fmt')
     if b is None:
-        run.violation(rule, 'Number::fmt', 'body', 'Display for Number not found (anchor lost)')
+        run.undecided(rule, 'Number::fmt', 'body', 'Display for Number not found (anchor lost)')
         return
     vs = [v['name'] for v in f.adts['number::Number']['variants']]
     ps, _ = explore(b)
